@@ -27,9 +27,11 @@ AdapterCases ==
         dst : Dsts]
 
 \* C06: through an in-process RPC
+\* rep: the sender hands the library a generated or a dynamic message (the
+\* receiver always uses a generated destination)
 RpcCases ==
   [fam : {"rpc"}, cloner : {"default"} \cup Adapters, kind : {"unary", "cstream", "sstream", "bidi"},
-   dir : {"request", "response"}, shape : Shapes]
+   dir : {"request", "response"}, shape : Shapes, rep : {"gen", "dyn"}]
 
 V(ok, why) == IF ok THEN {} ELSE {why}
 
@@ -61,8 +63,10 @@ ChkAdapter(o) ==
 \* returned is not visible to the receiver), panicked
 ChkRpc(o) ==
   IF o.panicked THEN {"panic"}
-  ELSE V(o.ran, "rpc-did-not-complete")
-       \cup V(o.equal, "received-message-differs")
+  ELSE IF ~o.ran THEN
+       \* function-based cloners need not copy across representations
+       V(o.rep = "dyn" /\ o.cloner \in {"clonefunc", "copyfunc"}, "rpc-did-not-complete")
+  ELSE V(o.equal, "received-message-differs")
        \cup V(o.disjoint, "caller-and-handler-share-message-memory")
        \cup V(o.overwritten, "destination-merged-not-overwritten")
        \cup V(o.aftersend, "mutation-after-send-visible-to-peer")
